@@ -74,6 +74,7 @@ struct CleanRun {
 fn clean_run(key_seed: u64, ops: &[Op]) -> Result<CleanRun, (usize, ops::Fail)> {
     let world = World::new();
     let mut sut = Sut::create(key_seed, world.clone(), CacheMode::None).map_err(|f| (0, f))?;
+    sut.plain_reopen_every = 2;
     let mut call_start = vec![0u64];
     for (i, op) in ops.iter().enumerate() {
         call_start.push(world.lock().unwrap().op_counter);
@@ -94,7 +95,10 @@ fn faulted_run(ctx: &mut Ctx, key_seed: u64, ops: &[Op], k: u64) -> Result<(), (
     let created = Sut::create(key_seed, world.clone(), CacheMode::None);
     let fired = |w: &std::sync::Arc<std::sync::Mutex<World>>| w.lock().unwrap().failed.clone();
     let mut sut = match created {
-        Ok(s) => {
+        Ok(mut s) => {
+            // every second reopen is a plain build() (no key pair, no open flag) on the existing
+            // stores: a failing read must surface there too instead of yielding a fresh core
+            s.plain_reopen_every = 2;
             if let Some(d) = fired(&world) {
                 return Err((format!("fault-swallowed:build:{}.{}", STORE_NAMES[d.store], d.kind), format!("build() returned Ok although storage operation {k} failed")));
             }
